@@ -1,8 +1,9 @@
 (* Spec/WfSpec.v — the part of D that EXTRACTION relies on, as decidable conditions on the OpenAPI document:
    every $ref resolves and reference chains through list items / single-member allOf are finite (depth d), model names
    carry no '(', component names do not start with a lower-case letter, every operation has a success response and a
-   well-formed path, security requirements name existing schemes. Array components / inline array responses whose items
-   are an inline schema are excluded (the shape of the open finding C07-array-component-inline-items). *)
+   well-formed path, security requirements name existing schemes. Array COMPONENTS with inline items (at any nesting
+   depth) are covered: every name create_unique_name may invent for the item schema must again be a legal record name.
+   Inline array RESPONSES whose items are an inline schema are excluded (their name depends on the table built so far). *)
 From LN Require Export Model.Shake.
 Local Open Scope nat_scope.
 
@@ -43,8 +44,8 @@ Definition all_of_ok (sp : spec) (d : nat) (l : list sref) : bool :=
 
 Definition inline_array (s : schema) : bool := match s_kind s with KArray (Some (Inl _)) => true | _ => false end.
 
-(* what extract_schema needs of a schema (whatever name it is registered under) *)
-Definition schema_ok (sp : spec) (d : nat) (s : schema) : bool :=
+(* what extract_schema needs of a schema that is not an array with inline items (whatever name it is registered under) *)
+Definition flat_ok (sp : spec) (d : nat) (s : schema) : bool :=
   negb (inline_array s) &&
   match s_kind s with
   | KObject props _ addl =>
@@ -59,6 +60,25 @@ Definition schema_ok (sp : spec) (d : nat) (s : schema) : bool :=
       then match l with x :: _ => sref_ok sp d x | [] => false end
       else all_of_ok sp d l
   | _ => ty_walk sp d s
+  end.
+
+(* the names create_unique_name can return for the item schema of an array registered under `name` *)
+Definition candidates (name : str) : list str :=
+  let sf := pascal (singular name) in
+  let it := pascal name ++ lit "Item" in
+  [sf; pascal name ++ sf; it; pascal name ++ it].
+
+(* what extract_schema needs of a component registered under `name`: arrays with inline items recurse into the item
+   schema under an invented name (one fuel unit per level); when no name is free the array becomes a newtype *)
+Fixpoint schema_ok (sp : spec) (d : nat) (name : str) (s : schema) {struct d} : bool :=
+  match d with
+  | O => false
+  | S d' =>
+    name_ok name &&
+    match s_kind s with
+    | KArray (Some (Inl item)) => ty_walk sp d s && forallb (fun n => schema_ok sp d' n item) (candidates name)
+    | _ => flat_ok sp d s
+    end
   end.
 
 (* properties_iter / body_requires terminate on s within depth d *)
@@ -98,7 +118,7 @@ Definition response_ok (sp : spec) (d : nat) (o : operation) : bool :=
   | Err _ => false
   | Ok None => true
   | Ok (Some (Ref n)) => sref_ok sp d (Ref n)
-  | Ok (Some (Inl r)) => schema_ok sp d r && ty_walk sp d r
+  | Ok (Some (Inl r)) => flat_ok sp d r && ty_walk sp d r
   end.
 
 Definition operation_ok (sp : spec) (d : nat) (io : path_item * operation) : bool :=
@@ -116,6 +136,6 @@ Definition security_ok (sp : spec) : bool :=
                       end) (security sp).
 
 Definition spec_ok (d : nat) (sp : spec) : bool :=
-  forallb (fun ns => name_ok (fst ns) && no_paren (fst ns) && schema_ok sp d (snd ns)) (components sp) &&
+  forallb (fun ns => schema_ok sp d (fst ns) (snd ns)) (components sp) &&
   forallb (operation_ok sp d) (all_operations sp) &&
   security_ok sp.
